@@ -7,6 +7,7 @@
 #include "support/NotCopyable.h"
 #include "util/NestCount.h"
 #include "util/OutputPrinter.h"
+#include "support/MuscleVerifHooks.h"
 
 #ifndef MUSCLE_SINGLE_THREAD_ONLY
 # if defined(QT_CORE_LIB)  // is Qt4 available?
@@ -267,6 +268,9 @@ private:
 
    status_t LockAux() const
    {
+#ifdef MUSCLE_VERIF_HOOKS
+      if (muscle_verif::g_hooks) {muscle_verif::g_hooks->MutexLock(this); return B_NO_ERROR;}
+#endif
 #ifdef MUSCLE_ENABLE_LOCKING_VIOLATIONS_CHECKER
       CheckForLockingViolation("Lock");
 #endif
@@ -301,6 +305,9 @@ private:
 
    status_t TryLockAux() const
    {
+#ifdef MUSCLE_VERIF_HOOKS
+      if (muscle_verif::g_hooks) return muscle_verif::g_hooks->MutexTryLock(this) ? B_NO_ERROR : B_LOCK_FAILED;
+#endif
 #ifdef MUSCLE_ENABLE_LOCKING_VIOLATIONS_CHECKER
       CheckForLockingViolation("TryLock");
 #endif
@@ -327,6 +334,9 @@ private:
 
    status_t UnlockAux() const
    {
+#ifdef MUSCLE_VERIF_HOOKS
+      if (muscle_verif::g_hooks) {muscle_verif::g_hooks->MutexUnlock(this); return B_NO_ERROR;}
+#endif
 #ifdef MUSCLE_ENABLE_LOCKING_VIOLATIONS_CHECKER
       CheckForLockingViolation("Unlock");
 #endif
